@@ -26,7 +26,8 @@ def strategy(tier):
 
     hist = ["kraus", "kraus", "kraus", "op", "measure", "struct", "comp", "resize"]
     return st.one_of(S.program_case(["kraus", "kraus", "kraus", "op"], max_steps=3), S.program_case(hist, max_steps=5, min_steps=2),
-                     S.lifecycle_case(tail_kinds=("kraus", "kraus", "op"), max_tail=3))
+                     S.lifecycle_case(tail_kinds=("kraus", "kraus", "op"), max_tail=3),
+                     S.survivor_case(touches=("kraus", "kraus", "resize", "fockop")))
 
 
 def run_case(case):
